@@ -35,3 +35,14 @@ func (p *PipelinedMemDB) VerifUnblock(err error) bool {
 		return false
 	}
 }
+
+// VerifDrain takes a pending flush result out of the result channel (non-blocking). Used by the harness at
+// the end of a run so that no flush goroutine of a (deliberately broken) library stays blocked on its send.
+func (p *PipelinedMemDB) VerifDrain() bool {
+	select {
+	case <-p.errCh:
+		return true
+	default:
+		return false
+	}
+}
